@@ -83,14 +83,14 @@ var (
 		MinRules: 1, MaxRules: 6, SalSpan: 2,
 		Secs: map[int]int{SecY: 2, SecCall: 2, SecAsgCall: 1, SecAsgKind: 2, SecDiv: 2, SecIdx: 2, SecNil: 2, SecUnknown: 2, SecArg: 2,
 			SecIfKind: 2, SecIfIdx: 2, SecIfNil: 2, SecElif: 2, SecForKind: 2, SecForStep: 1, SecUnb: 1, SecConc: 2, SecIfCall: 2, SecForRange: 2, SecMapIdx: 2, SecSetKind: 2, SecSetNil: 2},
-		MaxSecs: 4, Rets: []int{RetNone, RetNestedV, RetKind, RetTopKind, RetTop},
+		MaxSecs: 4, Rets: []int{RetNone, RetNestedV, RetKind, RetTopKind, RetTop, RetUnexp},
 		FaultPct: 75, GatePct: 10, RetPct: 50, MinCalls: 4, MaxCalls: 12, UnknownNamePct: 15, BadNMPct: 15,
 	}
 	ProfC11 = &Profile{
 		Methods:  allEngineMethods,
 		MinRules: 1, MaxRules: 6, SalSpan: 2,
 		Secs:    map[int]int{SecY: 2, SecCall: 2, SecAsgKind: 1},
-		MaxSecs: 2, Rets: []int{RetNone, RetNestedV, RetNestedV, RetNestedB, RetLoop, RetTop, RetTopB, RetKind, RetTopKind, RetElse},
+		MaxSecs: 2, Rets: []int{RetNone, RetNestedV, RetNestedV, RetNestedB, RetLoop, RetTop, RetTopB, RetKind, RetTopKind, RetElse, RetReq, RetUnexp},
 		FaultPct: 45, FaultKinds: map[int]bool{SecCall: true, SecAsgKind: true, -1: true}, GatePct: 10, RetPct: 65, MinCalls: 4, MaxCalls: 14, UnknownNamePct: 15, BadNMPct: 5, EvolvePct: 20,
 	}
 	ProfC12 = &Profile{
@@ -117,7 +117,7 @@ var (
 	ProfC15 = &Profile{
 		Methods:  cat(allEngineMethods, rep(MDAG, 3), rep(MConcurrent, 2)),
 		MinRules: 2, MaxRules: 6, SalSpan: 2,
-		Secs:    map[int]int{SecY: 3, SecLocal: 5, SecReader: 2, SecCall: 1, SecIfKind: 1, SecIfIdx: 1, SecForKind: 1, SecAsgKind: 1, SecShW: 2, SecShR: 2},
+		Secs:    map[int]int{SecY: 3, SecLocal: 5, SecReader: 2, SecCall: 1, SecIfKind: 1, SecIfIdx: 1, SecForKind: 1, SecAsgKind: 1, SecShW: 2, SecShR: 2, SecRangeKey: 3},
 		MaxSecs: 3, Rets: []int{RetNone, RetNestedV},
 		FaultPct: 40, GatePct: 30, RetPct: 50, MinCalls: 4, MaxCalls: 14, UnknownNamePct: 10, BadNMPct: 5,
 	}
